@@ -45,6 +45,11 @@ def make_ctx(role, minv, maxv, cipher=None, cert=None, key=None,
                     "@SECLEVEL=0")
     if cert:
         ctx.load_cert_chain(cert, key)
+    if role == "s":
+        # (the stdlib server offers no DHE suite without parameters)
+        import os
+        from . import ROOT
+        ctx.load_dh_params(os.path.join(ROOT, "assets", "dh_ffdhe2048.pem"))
     if curve:
         ctx.set_ecdh_curve(curve)
     if alpn:
